@@ -41,3 +41,19 @@ def _hs(prop, tier, seed, replay):
 
 
 CHECKS.update({p: _hs for p in ("C02", "C14", "C16")})
+
+
+def _c20(prop, tier, seed, replay):
+    import fam_pure
+    return seqfamily.check(prop, fam_pure.alpn_family(), tier, seed, replay)
+
+
+CHECKS["C20"] = _c20
+
+
+def _c19(prop, tier, seed, replay):
+    import fam_pure
+    return seqfamily.check(prop, fam_pure.store_family(), tier, seed, replay)
+
+
+CHECKS["C19"] = _c19
